@@ -573,5 +573,86 @@ theorem no_grid_option_key {sec : List (String × Json)} (h : recurses (.obj sec
   have := strContains_of_infix _ _ (gridKey_in_escaped.trans (h1.trans (h2.trans h3)))
   simp [recurses, this] at h
 
+/-! ### what a combination writes -/
+
+theorem mem_axes : ∀ (sec : List (String × Json)) (k : String) (opts : List Json),
+    (k, opts) ∈ axes sec ↔ (k, Json.arr opts) ∈ sec
+  | [], _, _ => by simp [axes]
+  | (a, v) :: r, k, opts => by
+    have ih := mem_axes r k opts
+    cases v <;> simp [axes, ih]
+
+/-- every chosen option comes from its axis -/
+theorem mem_choice : ∀ (ax : List (String × List Json)) (c : List Nat) (k : String) (v : Json),
+    (k, v) ∈ choice ax c → ∃ opts, (k, opts) ∈ ax ∧ v ∈ opts
+  | [], _, _, _, h => by simp [choice] at h
+  | (a, o) :: ax, [], _, _, h => by simp at h
+  | (a, o) :: ax, i :: c, k, v, h => by
+    simp only [choice] at h
+    cases hi : o[i]? with
+    | none =>
+      rw [hi] at h
+      obtain ⟨opts, h1, h2⟩ := mem_choice ax c k v h
+      exact ⟨opts, by simp [h1], h2⟩
+    | some x =>
+      rw [hi] at h
+      rcases List.mem_cons.mp h with e | h
+      · cases e
+        exact ⟨o, by simp, List.mem_of_getElem? hi⟩
+      · obtain ⟨opts, h1, h2⟩ := mem_choice ax c k v h
+        exact ⟨opts, by simp [h1], h2⟩
+
+/-- a write of a combination is either a non-object option under its field's name or an entry of a
+chosen object option -/
+theorem mem_writes : ∀ (ch : List (String × Json)) (k : String) (v : Json), (k, v) ∈ writes ch →
+    ((k, v) ∈ ch ∨ ∃ key o, (key, Json.obj o) ∈ ch ∧ (k, v) ∈ o)
+  | [], _, _, h => by simp [writes] at h
+  | (key, value) :: r, k, v, h => by
+    simp only [writes, List.mem_append] at h
+    rcases h with h | h
+    · cases value with
+      | obj o => exact Or.inr ⟨key, o, by simp, by simpa [writesOf] using h⟩
+      | _ => simp only [writesOf, List.mem_singleton] at h; cases h; exact Or.inl (by simp)
+    · rcases mem_writes r k v h with h' | ⟨key', o, h1, h2⟩
+      · exact Or.inl (by simp [h'])
+      · exact Or.inr ⟨key', o, by simp [h1], h2⟩
+
+/-- no write of any combination goes to the grid key, once the recursion guard has passed -/
+theorem gridKey_not_written {sec : List (String × Json)} (hr : recurses (.obj sec) = false)
+    (c : List Nat) : gridKey ∉ (writes (choice (axes sec) c)).map (·.1) := by
+  intro hm
+  obtain ⟨⟨k, v⟩, hkv, hk⟩ := List.mem_map.mp hm
+  simp only at hk
+  subst hk
+  rcases mem_writes _ _ _ hkv with h | ⟨key, o, h1, h2⟩
+  · obtain ⟨opts, h1, _⟩ := mem_choice _ _ _ _ h
+    exact no_grid_axis_key hr _ _ ((mem_axes _ _ _).mp h1) rfl
+  · obtain ⟨opts, h3, h4⟩ := mem_choice _ _ _ _ h1
+    exact no_grid_option_key hr key opts ((mem_axes _ _ _).mp h3) o h4 _ v h2 rfl
+
+/-- the option each axis takes: axis `i` contributes `(keyᵢ, optionsᵢ[cᵢ])` -/
+theorem choice_getElem : ∀ (ax : List (String × List Json)) (c : List Nat),
+    inRange (ax.map (·.2.length)) c = true → ∀ (i : Nat) (hi : i < ax.length),
+    ∃ j v, c[i]? = some j ∧ ax[i].2[j]? = some v ∧ (choice ax c)[i]? = some (ax[i].1, v)
+  | [], _, _, i, hi => by simp at hi
+  | (a, o) :: ax, c, h, i, hi => by
+    obtain ⟨d, ps, rfl, hd, h'⟩ := (MultiSet.inRange_cons_iff _ _ c).mp h
+    simp only at hd
+    cases i with
+    | zero => exact ⟨d, o[d], by simp, by simp [List.getElem?_eq_getElem hd],
+        by simp [choice, List.getElem?_eq_getElem hd]⟩
+    | succ i =>
+      obtain ⟨j, v, h1, h2, h3⟩ := choice_getElem ax ps h' i (by simpa using hi)
+      exact ⟨j, v, by simpa using h1, by simpa using h2,
+        by simpa [choice, List.getElem?_eq_getElem hd] using h3⟩
+
+theorem choice_length : ∀ (ax : List (String × List Json)) (c : List Nat),
+    inRange (ax.map (·.2.length)) c = true → (choice ax c).length = ax.length
+  | [], c, _ => by simp [choice]
+  | (a, o) :: ax, c, h => by
+    obtain ⟨d, ps, rfl, hd, h'⟩ := (MultiSet.inRange_cons_iff _ _ c).mp h
+    simp only at hd
+    simp [choice, List.getElem?_eq_getElem hd, choice_length ax ps h']
+
 end GridSearch
 end Compass
